@@ -1,9 +1,11 @@
 #!/bin/sh
-# usage: tools/sweep.sh <outdir> [budget_s] [tier]   -- run every check once, keep the outputs
+# usage: tools/sweep.sh <outdir> [budget_s|default] [tier]   -- run every check once (VERIF_SEED honoured), keep the outputs
 out="$1"; budget="${2:-10}"; tier="${3:-quick}"
 mkdir -p "$out"
-cd /verif || exit 2
+cd "$(dirname "$0")/.." || exit 2
+b="--budget $budget"; [ "$budget" = default ] && b=""
 for p in C01 C02 C03 C04 C05 C06 C07 C08 C09 C10 C11 C12 C13 C14 C15 C16 C17 C18 C19; do
-  ./verif check $p --tier $tier --budget $budget > "$out/$p.txt" 2>&1
-  echo "$p rc=$? $(grep -c '^VIOLATION' $out/$p.txt) violations, $(grep -c '^KNOWN-FINDING' $out/$p.txt) known" 
+  t0=$(date +%s)
+  ./verif check $p --tier $tier $b > "$out/$p.txt" 2>&1
+  echo "$p rc=$? $(grep -c '^VIOLATION' $out/$p.txt) violations, $(grep -c '^KNOWN-FINDING' $out/$p.txt) known, $(( $(date +%s) - t0 )) s" 
 done
